@@ -105,9 +105,13 @@ def run_live(ctx, P):
     hx = Hexital("hx", [], [ind] + others, **hkw)
     names = [ind.name] + [f"{ind.name}.{f}" for f in (fields or [])]
     src = clone(cs)
+    early = hx.candles(ind.timeframe) if ind.timeframe else hx.candles()        # asked for before any candle has arrived
     for k, c in enumerate(src):
         hx.append(c)
         agree(ctx, f"after append {k + 1}", ind, hx, names)
+        if k == 0 or k == n - 1:
+            now = hx.candles(ind.timeframe) if ind.timeframe else hx.candles()
+            ctx.require("Hexital.candles(timeframe) is the member's candle list, asked for before or after data arrives", early is now and now is ind.candles, f"after append {k + 1}: early is now = {early is now}, now is the member's list = {now is ind.candles}")
         if mode == "T2-cotenant" and k == n // 2:
             hx.remove_indicator(others[-1].name)
             agree(ctx, "after the co-tenant was removed", ind, hx, names)
